@@ -336,3 +336,33 @@ M("C12", "dec-fast-path-replace-backslash-first", F, "", "", "C12.R5", edits=[
               "            text = bstring\n            for pair, char in _PAIRS.items():\n                text = text.replace(pair, char)\n            return text.encode(\"latin-1\")\n")])
 M("C12", "dec-fast-path-raw-when-no-hex", F, FAST, FAST + "        if \"\\\\x\" not in bstring and \"\\\\u\" not in bstring:\n            return bstring.encode(\"latin-1\")\n", "C12.R5")
 M("C12", "dec-tab-unescaped-inline", F, ITER, "        it = StringIterator(bstring.replace(\"\\\\t\", \"\\t\").replace(\"\\\\n\", \"\\n\"))\n", "C12.R5")
+
+# ---------------------------------------------------------------------------------------------- wave 5
+# R1: a path that skips the escaper ("fast path" for plain text) is judged by the facts its own tests give about the characters of
+# the value (per-character predicates of CPython, lemma L13; `<constant> in value`): they must exclude the backslash byte, and the
+# double quote unless it is still replaced
+FASTPATH = "    if isinstance(value, bytes):\n%s        # we prepend a double quote to the bytes so repr() always escapes using single quote and strip it afterwards\n" + ESCAPER
+T("C12", "twin-enc-fast-path-alnum", F, ENC_HEAD, FASTPATH % "        if value.isalnum():\n            return '\"' + value.decode(\"ascii\") + '\"'\n")
+T("C12", "twin-enc-fast-path-printable-without-backslash", F, ENC_HEAD,
+  "    if isinstance(value, bytes):\n        if b\"\\\\\" not in value and value.isascii() and value.decode(\"ascii\").isprintable():\n            value = value.decode(\"ascii\")\n"
+  "        else:\n            value = repr(b'\"' + value)[3:-1]\n")
+T("C12", "twin-enc-fast-path-str-alpha", F, "    if isinstance(value, str):\n", "    if isinstance(value, str) and value.isascii() and value.isalpha():\n        return '\"' + value + '\"'\n    if isinstance(value, str):\n")
+# a guard the analysis does not understand: undecided, never violated
+T("C12", "twin-enc-undecided-fast-path-generator-guard", F, ENC_HEAD, FASTPATH % "        if all(48 <= b < 58 for b in value):\n            return '\"' + value.decode(\"ascii\") + '\"'\n")
+M("C12", "enc-fast-path-ascii-single-line", F, ENC_HEAD,
+  FASTPATH % "        if value.isascii() and b\"\\n\" not in value and b\"\\r\" not in value:\n            return '\"' + value.decode(\"ascii\").replace('\"', '\\\\\"') + '\"'\n", "C12.R1")
+M("C12", "enc-fast-path-latin1-printable", F, ENC_HEAD,
+  "    if isinstance(value, bytes):\n        text = str(value, \"latin-1\")\n        value = text if text.isprintable() else repr(b'\"' + value)[3:-1]\n", "C12.R1")
+M("C12", "enc-fast-path-no-backslash-quote-kept", F, ENC_HEAD, FASTPATH % "        if b\"\\\\\" not in value and value.isascii():\n            return '\"' + value.decode(\"ascii\") + '\"'\n", "C12.R1")
+M("C12", "enc-bytes-only-decoded", F, ESCAPER, "        value = value.decode(\"latin-1\")\n", "C12.R1")
+
+# R2: the bytes a text codec gives for ONE character (lemma L12): latin-1 over a code in 0..255 is exactly that byte, utf-8 / ascii
+# are not (two or more bytes / an exception from 0x80 on) - the documented value of an escape is its low byte
+T("C12", "twin-dec-x-chr-latin1", F, X_BRANCH, X_BRANCH.replace("buffer.append(int(hexstr, 16))", "buffer.extend(chr(int(hexstr, 16)).encode(\"latin-1\"))"))
+T("C12", "twin-dec-u-four-digits-masked-chr-latin1", F, U_BRANCH, (U_FOUR % "").replace("buffer.append(int(hexstr, 16) )", "buffer += bytes(chr(int(hexstr, 16) & 0xFF), \"iso-8859-1\")"))
+T("C12", "twin-dec-plain-encode-latin1", F, ELSE_ORD, "            else:\n                buffer.extend(c.encode(\"latin-1\"))\n")
+T("C12", "twin-dec-x-ord-chr", F, X_BRANCH, X_BRANCH.replace("buffer.append(int(hexstr, 16))", "buffer.append(ord(chr(int(hexstr, 16))))"))
+M("C12", "dec-x-chr-utf8", F, X_BRANCH, X_BRANCH.replace("buffer.append(int(hexstr, 16))", "buffer.extend(chr(int(hexstr, 16)).encode())"), "C12.R2")
+M("C12", "dec-u-four-digits-chr-latin1", F, U_BRANCH, (U_FOUR % "").replace("buffer.append(int(hexstr, 16) )", "buffer.extend(chr(int(hexstr, 16)).encode(\"latin-1\"))"), "C12.R2")
+M("C12", "dec-plain-encode-utf8", F, ELSE_ORD, "            else:\n                buffer.extend(c.encode(\"utf-8\"))\n", "C12.R2")
+M("C12", "dec-u-low-pair-chr-ascii", F, U_BRANCH, U_BRANCH.replace("buffer.append(int(hexstr, 16))", "buffer += chr(int(hexstr, 16)).encode(\"ascii\")"), "C12.R2")
